@@ -549,8 +549,10 @@ def run_C04(ctx, K):
         run_par_stream(ctx, K, br, "binds", par, tier_n(ctx, 300, 2000), "race-binds-p%d" % par, True)
     run_par_stream(ctx, K, br, "pardrop", 4, tier_n(ctx, 300, 2000), "race-pardrop-p4", True)
     # 4. failing and panicking node functions (generated online on the parallel graph), race detector on
-    for profile in ("faults", "alwaysfaults", "mix"):
+    for profile in ("faults", "alwaysfaults", "sentinelfaults", "mix"):
         run_par_stream(ctx, K, br, profile, 4, tier_n(ctx, 150, 1500), "race-%s-p4" % profile, True)
+    # Sentinels (always-kind nodes with a user function; implementation only): twin comparison with Stabilize
+    run_par_stream(ctx, K, br, "sentinel", 4, tier_n(ctx, 150, 1500), "race-sentinel-p4", True)
     # 5. shapes outside the generated alphabet
     run_parscen(ctx, K)
 
